@@ -5,23 +5,39 @@
   participant is re-evaluated once per iteration of the outermost head; see the header there).
   Reference: `lfp P env` = Kleene iteration from ⊥ with fuel `8 * n + 1`.
 
+  PROVED: `c12_lfp` (+ `_run`, `_history`: any entry node, any history, every memoised node),
+  `c12_stop_is_fix` (+ the loop-level `c12_stop_is_lfp`), `c12_mono`, `c12_lfp_is_fix`,
+  `c12_lfp_is_least`; the upper half of `c12_chain`.  Together with `C14.c14_total` a request
+  for a node of a well-formed program without `FallbackImmediate` nodes ends in the value
+  `lfp P env j`, or in `panic cycle` / `propagated` / `tooManyIterations` — never in anything
+  else; what is not proved is that `tooManyIterations` cannot happen (`c12_terminates`).
+
   NOT YET PROVED (intended full statements):
 
-  * `c12_chain` (full): for every run of the head loop of an outermost head, the provisional
-    values of consecutive iterations are ascending,
-      `∀ t k, prov_t k = some w → prov_{t+1} k = some w' → le w w'`.
+  * `c12_chain` (full): for the head loop of an outermost head `j`, with `s_t` the state at the
+    start of pass `t` (`s_{t+1} = stIter s1_t j new_t`),
+      `∀ t c w, s_t.prov.lookup c = some w → ∃ w', s_{t+1}.prov.lookup c = some w' ∧ le w w'`.
     Proved below: `c12_chain_partial` — every provisional and every cached value of every
-    reachable state is below `lfp` (the upper half of the chain statement), and
-    `c12_chain_join_partial` — one loop step is ascending for heads whose `cycle_fn` is the join.
-    Missing for identity `cycle_fn`: a simulation lemma between two consecutive passes of the
-    DFS (same visiting order, pointwise larger values); the DFS order is value-independent, but
-    that has not been formalised.
-  * `c12_terminates`: for `NoFallback` programs with `8 * P.n + 2 ≤ 200` no request ends in
-    `panic tooManyIterations` (at most `8·k+1` iterations for `k` heads).  It needs the strict
-    version of `c12_chain`.  Proved instead: `C15.c15_bounded` (the loop always ends within
-    `MAX_ITERATIONS` increments, in a value or a panic) and, by exhaustive evaluation, the
-    non-vacuity examples below.  The driver corpus (`corpus/CYCLE`) and 660k fuzzed requests
-    never produced `too-many-iterations` for this expression language.
+    reachable state is below `lfp` (the upper half), and `c12_chain_join_partial` — one loop
+    step is ascending for heads whose `cycle_fn` is the join.
+  * `c12_terminates`: `NoFallback P → 8 * P.n < 200 → (eval …) ≠ .error ⟨.tooManyIterations, _⟩`
+    (at most `8·k+1` iterations for `k` heads).
+    Both need a *simulation between two consecutive passes* of the DFS, which has been worked
+    out but not formalised:  relation `Sim F l r` between a state `l` of pass `t` and the
+    corresponding state `r` of pass `t+1` (same stack; `r.final = F ⊇ l.final`; same cache keys
+    with pointwise larger values; `dom l.prov ⊆ dom r.prov` with larger values; every head of
+    `r` is a head at the end of pass `t`), with the lemmas  (1) `fetch`/`evalM`/`execute`
+    preserve `Sim` and `le v v'` — the only asymmetric case is "pass `t` executes a node that
+    pass `t+1` finds final", which is closed by `eval_sound` (`v ≤ lfp = v'`) because such a
+    sub-run leaves no provisional state;  (2) hence the heads known at the start of a pass are
+    all recomputed in it and no new head appears after pass 0 (the DFS order is
+    value-independent);  (3) `cycleFn` is monotone in both arguments, which gives the chain;
+    (4) the measure `Σ_{c<n} card (value of c in pass t)` is bounded by `8·n` and strictly
+    increases with every non-converged pass, which gives termination.
+    Evidence meanwhile: `C15.c15_bounded` (the loop always ends within `MAX_ITERATIONS`
+    increments, in a value or a panic); the non-vacuity examples below; the driver corpus and
+    1.3 M fuzzed requests (programs of up to 7 nodes, mixed strategies, all entry orders) never
+    needed more than 3 iterations and never produced `too-many-iterations`.
 -/
 import SalsaVerif.Proofs.CycleSound
 
@@ -42,14 +58,6 @@ theorem c12_lfp_is_fix (P : Prog) (env : Nat → Nat) (i : Nat) :
 theorem c12_lfp_is_least (P : Prog) (env : Nat → Nat) (σ : Nat → Nat)
     (hσ : ∀ i, le (evalExpr env σ (P.node i).body) (σ i)) (i : Nat) : le (lfp P env i) (σ i) :=
   lfp_le_of_post P env (fun _ => True) σ (fun _ _ _ _ => trivial) (fun x _ => hσ x) i trivial
-
-theorem dbOk_nil (P : Prog) (env : Nat → Nat) : DbOk P env [] :=
-  ⟨fun _ _ h => (nomatch h), fun _ _ h => (nomatch h)⟩
-
-/-- the successful result of a request, for the examples (`Except` has no `DecidableEq`). -/
-def okOf {α β : Type} (f : α → β) : Res α → Option β
-  | .ok r => some (f r)
-  | .error _ => none
 
 /-- **c12_lfp.**  For a program without `FallbackImmediate` nodes, a request for ANY node `j`
     from a database whose memos are correct (in particular the empty one) that returns a value
@@ -83,26 +91,6 @@ theorem c12_lfp_run (P : Prog) (env : Nat → Nat) (hNF : NoFallback P) (j : Nat
     have hdb : DbOk P env [] := dbOk_nil P env
     obtain ⟨h1, h2, h3, _⟩ := c12_lfp P env hNF [] hdb [] j v s he
     exact ⟨by rw [← h1]; exact h2, h3⟩
-
-/-- the database after any history of requests in one revision. -/
-def gets (P : Prog) (env : Nat → Nat) : Db → List Nat → Db
-  | db, [] => db
-  | db, j :: js => gets P env (db.get P env j).2 js
-
-theorem dbOk_get (P : Prog) (env : Nat → Nat) (hNF : NoFallback P) (db : Db)
-    (hdb : DbOk P env db.final) (j : Nat) : DbOk P env (db.get P env j).2.final := by
-  unfold Db.get
-  cases he : eval P env db.final db.poisoned j with
-  | error e => exact hdb
-  | ok r =>
-    obtain ⟨v, s⟩ := r
-    exact (eval_sound P env hNF hdb db.poisoned j v s he).2.2.1
-
-theorem dbOk_gets (P : Prog) (env : Nat → Nat) (hNF : NoFallback P) (js : List Nat) :
-    ∀ db : Db, DbOk P env db.final → DbOk P env (gets P env db js).final := by
-  induction js with
-  | nil => intro db h; exact h
-  | cons j js ih => intro db h; exact ih _ (dbOk_get P env hNF db h j)
 
 /-- **c12_lfp, history form.**  After ANY history `js` of earlier requests in the revision
     (successful or panicking), a request for any node `j` that returns a value returns
